@@ -24,11 +24,13 @@ DRIVERS = ["CoupledList", "Accessor"]
 TABLES = True
 RULE = ("seeded operation sequences (append / insert at every index in [-n-2, n+2] / item assignment / deletion / "
         "creation / clear / moves of existing objects between parents) over the coupled list relations of the corpus "
-        "models, owners preferably with interleaved other child kinds; distinct = (accessor kind, op, index class "
+        "models, owners preferably with interleaved other child kinds; equality-steered and scripted histories (incl. slice assignment, "
+        "`in` / index() queries) over the lists whose member class overrides equality, two DIFFERENT members made equal first; distinct = (accessor kind, op, index class "
         "{neg-out, neg, zero, mid, end, out}, outcome, siblings interleaved?); non-trivial = every accepted mutation and every rejection")
 ASSUMPTIONS = [
     "a Python list is the specification: insert/setitem/delitem/append/clear with Python's index normalisation",
     "moves are restricted to objects that are not already members of the target list (a containment list holds an element once)",
+    "the Python list of the specification holds the SAME OBJECTS (compared by element identity afterwards): remove(x) takes out the first member that is x or compares equal to x, as a Python list of these objects does",
 ]
 TRUSTED = ["C08: lxml Element.insert/remove/index follow list semantics on the children sequence (exercised, not proved)"]
 MANIFEST = dict(
@@ -40,17 +42,25 @@ MANIFEST = dict(
           "class carries a kernel-checked obligation that its accessor kind is covered. Tied to /repo by per-step "
           "comparison of mirror / fresh / reloaded views with a Python list on real relations and an element-by-element "
           "frame comparison of the rest of the model."
-          ' Every list operation is additionally predicted over the real tree by the accessor model (Model/Accessor.lean), and a kernel-checked obligation over the generated table shows every writable relation of every registered class is of an implemented (or delegating) kind; the monitor compares list in hand, fresh view, stored attribute and reloaded model with the Python list.'),
+          ' Every list operation is additionally predicted over the real tree by the accessor model (Model/Accessor.lean), and a kernel-checked obligation over the generated table shows every writable relation of every registered class is of an implemented (or delegating) kind; the monitor compares list in hand, fresh view, stored attribute and reloaded model with the Python list.'
+          ' Lists whose member class overrides equality (attr_equal classes, found by reflection) are exercised with two different members that compare equal, through every list operation incl. slice assignment: which members an assignment drops is decided by element identity (theorems assignment_drops_by_element_identity, item_assignment_drops_exactly_the_replaced_member).'),
     design_ref="§6 C08",
     note=("Trusted: Lean kernel; lxml child-list semantics; descriptor table translator gen_descriptors.py. "
           "Item assignment on containment lists is a recorded known finding (see known_findings.jsonl) unless repaired."),
     technique="Lean 4 refinement proof (coupled list vs Python list, all integer indices) + generated descriptor table + per-step three-view differential run",
 )
 
-QUICK = [("write", 3, 30), ("write+frag", 2, 30), ("t52", 2, 25), ("libproj", 1, 20)]
-THOROUGH = [("write", 8, 60), ("write+frag", 5, 60), ("t52+frag", 2, 40), ("empty52", 3, 40), ("filtering", 2, 40), ("libproj", 3, 40), ("t50", 2, 40), ("t52", 4, 50), ("t60", 2, 40)]
+# (model, histories, steps[, share of steps steered to lists whose member class overrides equality – default EQ_OVERRIDE])
+QUICK = [("write", 3, 30), ("write+frag", 2, 30), ("t52", 2, 25), ("libproj", 1, 20), ("write", 3, 30, 0.8)]
+# scripted histories over the lists whose members override equality: (model, relations at most, accessor kinds or None)
+NONCONTAIN = ("LinkAccessor", "AttrProxyAccessor", "PhysicalLinkEndsAccessor", "TypecastAccessor")
+SCRIPTED_QUICK = [("write", 6, None), ("t50", 1, NONCONTAIN)]
+SCRIPTED_THOROUGH = [("write", 8, None), ("t50", 10, None), ("t52", 4, NONCONTAIN), ("t60", 10, None)]
+THOROUGH = [("write", 8, 60), ("write+frag", 5, 60), ("t52+frag", 2, 40), ("empty52", 3, 40), ("filtering", 2, 40), ("libproj", 3, 40), ("t50", 2, 40), ("t52", 4, 50), ("t60", 2, 40),
+            ("write", 6, 60, 0.8), ("empty52", 3, 40, 0.8), ("t50", 3, 40, 0.8), ("t60", 2, 40, 0.8), ("t52+frag", 2, 40, 0.8)]
+EQ_OVERRIDE = 0.2   # share of history steps steered to lists whose member class overrides equality (objops.eq_step)
 W = {"create": 3, "delitem": 3, "insert": 6, "setitem": 3, "append": 3, "remove": 2, "setattr": 0, "clear": 1,
-     "create_clash": 0, "create_nested": 0, "delete_referenced": 0, "role_set": 0, "move_over_placeholder": 1, "assign": 3}
+     "create_clash": 0, "create_nested": 0, "delete_referenced": 0, "role_set": 0, "move_over_placeholder": 1, "assign": 3, "setslice": 2}
 
 
 def idx_class(i, n):
@@ -86,7 +96,43 @@ def py_apply(lst: list, op: str, args: dict, x):
         l.clear()
     elif op == "assign":
         l = list(args["new_uuids"])
+    elif op == "setslice":
+        l[args["a"]:args["b"]] = list(args["new_uuids"])
     return l
+
+
+def cheap_state(loader) -> dict:
+    """fragment name -> lxml's own serialisation of the whole document (C speed; taken before every step)"""
+    from lxml import etree
+
+    return {str(f): etree.tostring(t.root.getroottree()) for f, t in loader.trees.items()}
+
+
+def changed_fragments(loader, before: dict) -> list:
+    """the fragment files whose bytes AS THE LIBRARY WRITES THEM differ from the state `before` (of `cheap_state`).
+    Identical lxml serialisations mean identical trees, hence identical bytes; only where they differ is the earlier
+    state parsed again and both are serialised by the library's writer (what `objlayer.frag_hashes` compares) – the same
+    verdict as comparing `frag_hashes` before/after, without writing the whole model through Python before every step."""
+    from capellambse.loader import exs
+    from lxml import etree
+
+    now = cheap_state(loader)
+    roots = {str(f): t.root for f, t in loader.trees.items()}
+    out = []
+    for f in sorted(set(now) | set(before)):
+        if now.get(f) == before.get(f):
+            continue
+        if f not in now or f not in before:
+            out.append(f)
+        elif exs.to_bytes(etree.fromstring(before[f])) != exs.to_bytes(roots[f]):
+            out.append(f)
+    return out
+
+
+def exact_writer_available() -> bool:
+    from capellambse.loader import exs
+
+    return hasattr(exs, "to_bytes")
 
 
 class ListMonitor:
@@ -115,15 +161,29 @@ class ListMonitor:
         # finding `...|fragment-spanning`); for the frame they count as gone, they are not C08's subject
         spanning: set = set()
         root_victim = False
-        if st.op in ("delitem", "remove", "setitem", "clear", "assign") and st.rel.contain:
+        # `remove(x)` on a plain Python list of the same objects takes out the FIRST member that is x or compares equal to
+        # x – for a class that overrides equality that may be another element than x
+        victim_uuid = st.args.get("uuid")
+        if st.op == "remove":
+            import accsession as _acs
+            x_ = _acs.live(st).get("x")
+            try:
+                victim_uuid = getattr(list(lst)[list(lst).index(x_)], "uuid", None) if x_ is not None else victim_uuid
+            except ValueError:
+                victim_uuid = None
+            if victim_uuid != st.args.get("uuid"):
+                self.out.hit("remove.first-equal-member-is-another-element")
+        if st.op in ("delitem", "remove", "setitem", "clear", "assign", "setslice") and st.rel.contain:
             n_ = len(lst)
             victims = []
+            if st.op == "setslice":
+                victims = [x for x in list(lst)[st.args["a"]:st.args["b"]] if getattr(x, "uuid", None) not in st.args["new_uuids"]]
             if st.op == "assign":
                 victims = [x for x in lst if getattr(x, "uuid", None) not in st.args["new_uuids"]]
             if st.op in ("delitem", "setitem") and -n_ <= st.args.get("i", 0) < n_:
                 victims = [lst[st.args["i"]]]
             elif st.op == "remove":
-                victims = [x for x in lst if getattr(x, "uuid", None) == st.args.get("uuid")]
+                victims = [x for x in lst if getattr(x, "uuid", None) == victim_uuid]
             elif st.op == "clear":
                 victims = list(lst)
             root_victim = any(v._element.getparent() is None for v in victims)
@@ -146,8 +206,10 @@ class ListMonitor:
         self._pre = {
             "hand": hand, "hand_uuids": hand_uuids,
             "view": view, "uuids": uu, "kids": [k for k, _ in kids], "spanning": spanning, "root_victim": root_victim,
-            "snap": ol.tree_snapshot(model._loader),
-            "hashes": ol.frag_hashes(model._loader), "index": ol.index_dump(model._loader),
+            "victim_uuid": victim_uuid, "eq_pair": objops.equal_pair(list(lst)) is not None,
+            "snap": ol.tree_snapshot(model._loader), "objs": list(lst),
+            "cheap": cheap_state(model._loader) if exact_writer_available() else None,
+            "hashes": None if exact_writer_available() else ol.frag_hashes(model._loader), "index": ol.index_dump(model._loader),
             "interleaved": interleaved([k for k, _ in kids], view),
         }
 
@@ -173,12 +235,15 @@ class ListMonitor:
                 model._verif_broken_roots = True
                 model._verif_stop = True   # the state is corrupt from here on: end this history
                 return   # the other observations of this step are consequences of the same defect
+        if st.op == "query":
+            self.query(rec, model, pre, kind)
+            return
         if rec.outcome != "ok":
             # a rejected operation changes nothing
-            h1 = ol.frag_hashes(loader)
-            if h1 != pre["hashes"]:
+            changed = self.changed(loader, pre)
+            if changed:
                 why = "|member-is-fragment-root" if (pre.get("root_victim") and rec.outcome == "AssertionError") else ""
-                self.find(rec, f"rejected-op-changed-model|{kind}|{st.op}{why}", f"{st.op} raised {rec.outcome} but fragments {[f for f in h1 if h1[f] != pre['hashes'].get(f)]} changed")
+                self.find(rec, f"rejected-op-changed-model|{kind}|{st.op}{why}", f"{st.op} raised {rec.outcome} but fragments {changed} changed")
             elif ol.index_dump(loader) != pre["index"]:
                 self.find(rec, f"rejected-op-changed-index|{kind}|{st.op}", f"{st.op} raised {rec.outcome}; the files are as before but the id/type indexes differ")
             # … and Python would have accepted it?  (IndexError where a list clamps)
@@ -201,7 +266,11 @@ class ListMonitor:
         if st.op == "assign_dup":
             self.find(rec, f"unique-accepts-duplicate|{kind}|assign", "assigning a sequence with a duplicate member to a uniqueness-enforcing relation was accepted")
             return
-        if st.op in ("insert", "append", "setitem", "delitem", "remove", "clear", "assign"):
+        if st.op in ("insert", "append", "setitem", "delitem", "remove", "clear", "assign", "setslice"):
+            if st.args.get("eq"):
+                self.out.hit(f"eq-override.{st.op}.{st.args['eq']}")
+            if pre.get("eq_pair"):
+                self.out.hit(f"equal-but-distinct-members.{st.op}")
             if st.op in ("insert", "append") and x_uuid in pre["uuids"] and getattr(st.rel.acc, "unique", False):
                 # a uniqueness-enforcing relation must reject a member that is already present,
                 # whichever list object the caller uses
@@ -209,30 +278,46 @@ class ListMonitor:
                 return
             # the Python list the statement compares with is the list object IN HAND: for an outdated second handle
             # that is the handle's own content, not the relation's current content
-            base = pre["hand_uuids"] if (st.args.get("stale_handle") and pre.get("hand_uuids") is not None) else pre["uuids"]
-            if st.op in ("insert", "append", "setitem") and (x_uuid in pre["uuids"] or x_uuid in base) and not (kind == "AttrProxyAccessor" and st.op != "setitem"):
+            # (attribute-link lists: the accessor rewrites the whole attribute from the handle's content, so fresh view =
+            # handle content + edit. Link-ELEMENT lists – LinkAccessor and typecast views of one – add / remove ONE link
+            # element of the relation: through an outdated handle the fresh view is the relation's CURRENT content + edit
+            # (a member added through another handle meanwhile is not forgotten), the handle shows its own content + edit.)
+            stale = bool(st.args.get("stale_handle") and pre.get("hand_uuids") is not None)
+            base = pre["hand_uuids"] if (stale and whole_rewrite(st.rel)) else pre["uuids"]
+            if st.op in ("insert", "append", "setitem", "setslice") and (x_uuid in pre["uuids"] or x_uuid in base) and not (kind == "AttrProxyAccessor" and st.op != "setitem"):
                 # a move within a containment list / a set-like link-element list: outside the stated domain.
                 # (An attribute-link list is a plain sequence: the same object twice is legal and IS in the domain.)
                 return
-            want = py_apply(base, st.op, st.args, x_uuid)
+            want = py_apply(base, st.op, st.args, pre.get("victim_uuid") if st.op == "remove" else x_uuid)
             try:
                 fresh = ol.uuids(st.rel.get())
             except Exception as e:  # noqa: BLE001
                 self.find(rec, f"fresh-view-raises|{kind}|{st.op}", f"fetching the relation after {st.op} raised {type(e).__name__}")
                 return
+            victim = pre.get("victim_uuid") if st.op == "remove" else x_uuid
+            if st.op in ("delitem", "remove") and fresh != want and victim is not None and base.count(victim) > 1:
+                # the SAME element held more than once (attribute-link lists are plain sequences) and one position deleted:
+                # a class of its own (listed finding) – `accessor.delete(list, obj)` has no position to go by
+                self.find(rec, f"member-held-twice-deleted-everywhere|{kind}|{st.op}",
+                          f"{st.op}({i if i is not None else ''}) on {short(base)}: a Python list loses ONE position of {str(victim)[:8]} and gives {short(want)}; the fresh view is {short(fresh)}")
+                return
             if fresh != want:
                 self.find(rec, f"fresh-view-differs|{kind}|{st.op}|{ic}|{'interleaved' if pre['interleaved'] else 'plain'}",
                           f"{st.op}({i if i is not None else ''}) on {n} elements: fresh view {short(fresh)} but a Python list gives {short(want)}")
             # the list object in hand mirrors the edit
-            if pre.get("hand") is not None and st.op in ("insert", "append", "setitem", "delitem", "remove"):
+            if pre.get("hand") is not None and st.op in ("insert", "append", "setitem", "delitem", "remove", "setslice"):
                 try:
                     inhand = ol.uuids(pre["hand"])
                 except Exception:  # noqa: BLE001
                     inhand = None
                 self.out.hit("list-in-hand.compared")
-                if inhand is not None and inhand != want:
+                want_hand = want
+                if stale and not whole_rewrite(st.rel):
+                    want_hand = py_apply(pre["hand_uuids"], st.op, st.args, pre.get("victim_uuid") if st.op == "remove" else x_uuid)
+                    self.out.hit("outdated-handle.link-elements")
+                if inhand is not None and inhand != want_hand:
                     self.find(rec, f"list-in-hand-differs|{kind}|{st.op}",
-                              f"{st.op}({i if i is not None else ''}): the list object in hand shows {short(inhand)} but a Python list gives {short(want)} (fresh view {short(fresh)})")
+                              f"{st.op}({i if i is not None else ''}): the list object in hand shows {short(inhand)} but a Python list gives {short(want_hand)} (fresh view {short(fresh)})")
             # … and the stored attribute of an attribute-link list says the same
             if kind == "AttrProxyAccessor" and getattr(st.rel.acc, "attr", None):
                 import re as _re
@@ -278,6 +363,44 @@ class ListMonitor:
                     self.impl.append(kids_after)
                     self.meta.append(("clist.insert", kind, ic, n))
 
+    @staticmethod
+    def changed(loader, pre) -> list:
+        if pre.get("cheap") is not None:
+            return changed_fragments(loader, pre["cheap"])
+        h1 = ol.frag_hashes(loader)
+        return [f for f in h1 if h1[f] != pre["hashes"].get(f)]
+
+    def query(self, rec, model, pre, kind):
+        """`x in lst` / `lst.index(x)`: they change nothing; `index` answers what a plain Python list of the same objects
+        answers; a member (the element itself) is contained, an object that neither is nor equals a member is not.
+        (An object that EQUALS a member without being one: a list of objects says yes, a list of elements says no – the
+        answer is recorded, not judged.)"""
+        import accsession
+
+        st = rec.step
+        if rec.outcome != "ok":
+            self.find(rec, f"query-raises|{kind}", f"`in` / index() raised {rec.outcome}")
+            return
+        changed = self.changed(model._loader, pre)
+        if changed or ol.index_dump(model._loader) != pre["index"] or ol.uuids(st.rel.get()) != pre["uuids"]:
+            self.find(rec, f"query-changed-model|{kind}", f"`in` / index() changed the model (fragments {changed})")
+        L = accsession.live(st)
+        objs = pre["objs"]
+        for x, (c, k) in zip(L["probes"], L["res"]):
+            try:
+                want_k = objs.index(x)
+            except ValueError:
+                want_k = "ValueError"
+            is_member = any(o._element is x._element for o in objs)
+            equals_member = any(o == x for o in objs)
+            self.out.hit(f"query.{'member' if is_member else 'equal-non-member' if equals_member else 'stranger'}.in={c}.index={'n' if isinstance(k, int) else k}")
+            if k != want_k:
+                self.find(rec, f"index-differs-from-python-list|{kind}", f"index({getattr(x, 'uuid', None)}) = {k}; a Python list of the same objects answers {want_k}")
+            if is_member and not c:
+                self.find(rec, f"member-not-contained|{kind}", f"{getattr(x, 'uuid', None)} is a member but `in` says no")
+            if c and not is_member and not equals_member:
+                self.find(rec, f"stranger-contained|{kind}", f"{getattr(x, 'uuid', None)} neither is nor equals a member but `in` says yes")
+
     def frame(self, rec, model, pre, kind, allowed_new: bool):
         """No other element of the model is added, removed or altered, except references to elements
         that an explicit deletion removed (judged on raw element snapshots, not through the API)."""
@@ -304,8 +427,12 @@ class ListMonitor:
 
         # what the operation explicitly removes from the list
         explicit = set()
-        if st.op in ("delitem", "remove"):
+        if st.op == "delitem":
             explicit = {st.args.get("uuid")}
+        elif st.op == "remove":
+            explicit = {pre.get("victim_uuid")}
+        elif st.op == "setslice":
+            explicit = set(pre["uuids"][st.args["a"]:st.args["b"]]) - set(st.args["new_uuids"])
         elif st.op == "setitem":
             n = len(pre["uuids"])
             i = st.args["i"]
@@ -320,7 +447,7 @@ class ListMonitor:
         alive_ids -= pre.get("spanning", set())
         gone_ids |= pre.get("spanning", set())
         moved_id = st.args.get("uuid")
-        moved_roots = {nid for nid in snap1 if ident(snap1[nid][3]) == moved_id} if st.op in ("insert", "append", "setitem") else set()
+        moved_roots = {nid for nid in snap1 if ident(snap1[nid][3]) == moved_id} if st.op in ("insert", "append", "setitem", "setslice") else set()
 
         bad = []
         purged = {nid for nid in gone if not under(nid, explicit_roots, snap0) and (refs(snap0[nid][3]) & gone_ids)}
@@ -354,10 +481,22 @@ class ListMonitor:
 
     def find(self, rec, sig, msg):
         self.out.find(sig, f"{self.key} step {rec.i} {S.describe(rec.step)}: {msg}",
-                      {"kind": "history", "model": self.key, "hist": self.hist_id, "step": rec.i, "ops": self.hist[-4:], "failure": sig})
+                      {"kind": "history", "model": self.key, "hist": self.hist_id, "step": rec.i, "ops": self.hist[-4:], "failure": sig,
+                       **({"script": self.script_plan} if getattr(self, "script_plan", None) else {})})
 
     def end(self, model):
         pass
+
+
+def whole_rewrite(rel) -> bool:
+    """does the relation's accessor (for a typecast view: the accessor it wraps) rewrite the whole stored sequence from the
+    list object it is handed (attribute-link lists) – as opposed to adding / removing single link elements?"""
+    from capellambse.model import _descriptors as D
+
+    acc = rel.acc
+    if isinstance(acc, D.TypecastAccessor):
+        acc = getattr(type(rel.owner), getattr(acc, "attr", ""), acc)
+    return isinstance(acc, D.AttrProxyAccessor)
 
 
 def interleaved(kids: list, view: list) -> bool:
@@ -672,6 +811,82 @@ def shared_tag_scenarios(ctx: Ctx, out: Outcome, key: str, limit: int, req=None,
                 return
 
 
+def seed_eq_lists(model, rng: random.Random, out: Outcome | None = None, hosts: int = 3, members: int = 4) -> int:
+    """A corpus model that has no list of equality-overriding objects gets some (input construction, before the
+    monitored history starts): for every containment relation, of any registered class, whose declared member class
+    overrides equality (reflection), `hosts` new owners are created wherever the model already has a list that takes
+    objects of the owner class, and each gets `members` new members whose comparison keys are drawn from a two-letter
+    alphabet – so equal-but-distinct members occur inside one list and across lists. Returns the number of lists made."""
+    from capellambse.model import _descriptors as D
+    from capellambse.model import _xtype
+
+    decl = []
+    for cls in {c for d in _xtype.XTYPE_HANDLERS.values() for c in d.values()}:
+        for attr in dir(cls):
+            if attr.startswith("_"):
+                continue
+            try:
+                acc = getattr(cls, attr)
+            except Exception:  # noqa: BLE001
+                continue
+            if type(acc) is D.DirectProxyAccessor and acc.aslist is not None and not acc.rootelem and objops._declared_eq(acc) \
+                    and objops.overrides_eq(getattr(acc, "class_", None)) and objops.eq_key(acc.class_):
+                decl.append((cls, attr, acc))
+    decl.sort(key=lambda t: (t[0].__name__, t[1]))
+    made = 0
+    objs = ol.all_objects(model)
+    for ocls, attr, acc in decl:
+        # lists of the model that take objects of the owner class
+        homes = []
+        for o, a, hacc, lst in ol.coupled_relations(model, objs):
+            if type(hacc) is D.DirectProxyAccessor and not hacc.rootelem and getattr(hacc, "class_", None) is ocls:
+                homes.append(lst)
+        if not homes:
+            continue
+        key = objops.eq_key(acc.class_)
+        for h in range(hosts):
+            home = rng.choice(homes)
+            try:
+                owner = home.create(name=f"eq-host-{h}")
+                lst = getattr(owner, attr)
+                for _ in range(members):
+                    lst.create(**{key: rng.choice(["A", "B"])})
+                made += 1
+            except Exception as e:  # noqa: BLE001
+                if out is not None:
+                    out.hit(f"eq-seed.failed.{ocls.__name__}.{attr}.{type(e).__name__}")
+                continue
+            if out is not None:
+                out.hit(f"eq-seed.{ocls.__name__}.{attr}")
+    return made
+
+
+def eq_model(ctx: Ctx, key: str, hist_id: int, out: Outcome | None = None):
+    """the corpus model for an equality-steered history; lists of equality-overriding objects are made when it has none"""
+    model = ol.load(ctx, key)
+    if not objops.eq_owner_elements(model):
+        seed_eq_lists(model, random.Random(f"c08eq:{ctx.seed}:{key}:{hist_id}"), out)
+        objops._EQ_OWNERS.clear()
+    return model
+
+
+SCRIPT_HIST = 200
+
+
+def scripted_history(ctx: Ctx, out: Outcome, key: str, limit: int, kinds, observers: list):
+    """every list operation in turn (objops.EQ_SCRIPT_OPS) on the relations of `key` that hold equality-overriding
+    objects, through the same monitors and the same accessor tie as the random histories"""
+    m0 = eq_model(ctx, key, SCRIPT_HIST, out)
+    for ob in observers:
+        ob.script_plan = [limit, list(kinds) if kinds else None]
+    objops.SCRIPT = objops.eq_script(m0, random.Random(f"c08script:{ctx.seed}:{key}"), limit, kinds)
+    out.hit(f"eq-script.{key}.relations", len(objops.SCRIPT) // len(objops.EQ_SCRIPT_OPS))
+    try:
+        S.run_history(ctx, out, key, len(objops.SCRIPT) + 40, observers, weights=W, hist_id=SCRIPT_HIST, model=m0)
+    finally:
+        objops.SCRIPT = None
+
+
 def run(ctx: Ctx) -> Outcome:
     import os
 
@@ -679,13 +894,22 @@ def run(ctx: Ctx) -> Outcome:
     objops.SAME_RESOURCE_MOVES = True
     objops.PREFER_INTERLEAVED = 0.4
     objops.MEMBER_AGAIN = 0.25
+    objops.EQ_OVERRIDE = EQ_OVERRIDE
     req: list = []
     impl: list = []
     meta: list = []
-    for key, nh, ns in (THOROUGH if ctx.thorough else QUICK):
+    for key, nh, ns, *eqp in (THOROUGH if ctx.thorough else QUICK):
         for h in range(nh):
             import accsession
-            S.run_history(ctx, out, key, ns, [ListMonitor(out, ctx, req, impl, meta), accsession.AccessorTie(out), ReloadMonitor(out, ctx)], weights=W, hist_id=h)   # the tie ends before ReloadMonitor saves (save swaps fragment roots)
+            objops.EQ_OVERRIDE = eqp[0] if eqp else EQ_OVERRIDE
+            m0 = None
+            if eqp:
+                h += 100   # histories of their own (another seed than the plain ones on the same model)
+                m0 = eq_model(ctx, key, h, out)
+            S.run_history(ctx, out, key, ns, [ListMonitor(out, ctx, req, impl, meta), accsession.AccessorTie(out), ReloadMonitor(out, ctx)], weights=W, hist_id=h, model=m0)   # the tie ends before ReloadMonitor saves (save swaps fragment roots)
+    objops.EQ_OVERRIDE = 0.0
+    for key, limit, kinds in (SCRIPTED_THOROUGH if ctx.thorough else SCRIPTED_QUICK):
+        scripted_history(ctx, out, key, limit, kinds, [ListMonitor(out, ctx, req, impl, meta), accsession.AccessorTie(out), ReloadMonitor(out, ctx)])
     for key in (["t52", "t50", "write"] if ctx.thorough else ["t50"]):
         unique_scenarios(ctx, out, key, ctx.pick(6, 30))
         shared_tag_scenarios(ctx, out, key, ctx.pick(6, 30), req, impl, meta)
@@ -721,13 +945,28 @@ def replay(ctx: Ctx, case: dict):
     objops.SAME_RESOURCE_MOVES = True
     objops.PREFER_INTERLEAVED = 0.4
     objops.MEMBER_AGAIN = 0.25
+    objops.EQ_OVERRIDE = EQ_OVERRIDE
     if case.get("kind") == "member-again":
         member_again_scenarios(ctx, out, case["model"], 60)
     if case.get("kind") == "link-multiplicity":
         link_multiplicity_scenarios(ctx, out, case["model"], 40)
-    plan = {k: ns for k, _, ns in THOROUGH + QUICK}
+    plan = {k: ns for k, _, ns, *_e in THOROUGH + QUICK}
+    m0 = None
+    if case.get("hist", 0) == SCRIPT_HIST:
+        plans = [(case["model"], case["script"][0], tuple(case["script"][1]) if case["script"][1] else None)] if case.get("script") else []
+        for key, limit, kinds in plans + SCRIPTED_THOROUGH + SCRIPTED_QUICK:
+            if key == case["model"]:
+                scripted_history(ctx, out, key, limit, kinds, [ListMonitor(out, ctx, [], [], []), ReloadMonitor(out, ctx)])
+                break
+        for f in out.findings:
+            if f.signature == case.get("failure"):
+                return f.what
+        return None
+    if case.get("hist", 0) >= 100:
+        objops.EQ_OVERRIDE = 0.8
+        m0 = eq_model(ctx, case["model"], case["hist"])
     S.run_history(ctx, out, case["model"], max(plan.get(case["model"], 40), case.get("step", 0) + 1),
-                  [ListMonitor(out, ctx, [], [], []), ReloadMonitor(out, ctx)], weights=W, hist_id=case["hist"])
+                  [ListMonitor(out, ctx, [], [], []), ReloadMonitor(out, ctx)], weights=W, hist_id=case["hist"], model=m0)
     if case.get("kind") == "unique":
         unique_scenarios(ctx, out, case["model"], 30)
     if case.get("kind") == "shared-tag":
